@@ -627,6 +627,67 @@ mod verif_cex_history {
         } }
     }
 
+    // C07: handles to child buckets obtained from a LISTING (Bucket::buckets / Tx::buckets) are the transaction's handles: what is
+    // written through them is read back through a handle looked up by name, through a second listing, and after commit
+    fn run_listed_handles_shape(top: bool) -> Result<(), String> {
+        let p = std::env::temp_dir().join(format!("jammdb-cex-listed-{}-{}.db", top, std::process::id()));
+        let _ = std::fs::remove_file(&p);
+        let res = (|| {
+            let what = format!("shape: {} with 5 committed child buckets (one key each, page size 1024); ONE write transaction walks the LISTING of the children, puts a key and deletes a key through each listed handle, then reads every child back by name", if top { "the root" } else { "bucket `p`" });
+            let db = OpenOptions::new().pagesize(1024).open(&p).map_err(|e| format!("open: {:?}", e))?;
+            let nm = |i: u32| format!("c{:02}", i).into_bytes();
+            let mut m = MB::default();
+            let mut pm = MB::default();
+            {
+                let tx = db.tx(true).unwrap();
+                let par = if top { None } else { Some(tx.create_bucket("p").unwrap()) };
+                for i in 0..5u32 {
+                    let c = match &par { Some(p) => p.create_bucket(nm(i)).unwrap(), None => tx.create_bucket(nm(i)).unwrap() };
+                    c.put("old", "1").unwrap(); c.put("gone", "2").unwrap();
+                    let mut cm = MB::default(); cm.items.insert(b"old".to_vec(), M::Kv(b"1".to_vec())); cm.items.insert(b"gone".to_vec(), M::Kv(b"2".to_vec())); cm.next_int = 2;
+                    pm.items.insert(nm(i), M::B(cm)); pm.next_int += 1;
+                }
+                tx.commit().map_err(|e| format!("{}: first commit fails: {:?}", what, e))?;
+            }
+            {
+                let tx = db.tx(true).unwrap();
+                {
+                    let listed: Vec<(Vec<u8>, Bucket)> = if top { tx.buckets().map(|(n, b)| (n.name().to_vec(), b)).collect() } else { tx.get_bucket("p").unwrap().buckets().map(|(n, b)| (n.name().to_vec(), b)).collect() };
+                    if listed.len() != 5 { return Err(format!("{}: the listing shows {} children", what, listed.len())); }
+                    for (n, b) in &listed {
+                        b.put("via-listing", n.clone()).map_err(|e| format!("{}: put through a listed handle fails: {}", what, kind(&e)))?;
+                        b.delete("gone").map_err(|e| format!("{}: delete through a listed handle fails: {}", what, kind(&e)))?;
+                        if let Some(M::B(cm)) = pm.items.get_mut(n) { cm.items.insert(b"via-listing".to_vec(), M::Kv(n.clone())); cm.items.remove(&b"gone".to_vec()); cm.next_int += 1; }
+                    }
+                }
+                for i in 0..5u32 {
+                    let c = if top { tx.get_bucket(nm(i)) } else { tx.get_bucket("p").unwrap().get_bucket(nm(i)) }.map_err(|e| format!("{}: child missing by name: {}", what, kind(&e)))?;
+                    let got = c.get_kv("via-listing").map(|kv| kv.value().to_vec());
+                    if got != Some(nm(i)) { return Err(format!("{}: inside the transaction child {} read by NAME shows {:?} for the key put through the listed handle", what, i, got)); }
+                    if c.get_kv("gone").is_some() { return Err(format!("{}: inside the transaction child {} read by NAME still shows the key deleted through the listed handle", what, i)); }
+                }
+                tx.commit().map_err(|e| format!("{}: commit fails: {:?}", what, e))?;
+            }
+            if top { m = pm; } else { m.items.insert(b"p".to_vec(), M::B(pm)); m.next_int = 1; }
+            db.check().map_err(|e| format!("{}: DB::check() fails: {:?}", what, e))?;
+            read_all(&db, &m, &what)?;
+            Ok(())
+        })();
+        let _ = std::fs::remove_file(&p);
+        res
+    }
+
+    #[test]
+    fn cex_history_listed_handles() {
+        for top in [false, true] {
+            match std::panic::catch_unwind(|| run_listed_handles_shape(top)) {
+                Ok(Ok(())) => {}
+                Ok(Err(e)) => { println!("CEX history (C07/C01): {}", e); panic!("listed handles mismatch"); }
+                Err(_) => { println!("CEX history (C01 nothing panics): listed-handles shape (top {}) panicked", top); panic!("listed handles panic"); }
+            }
+        }
+    }
+
     #[test]
     fn cex_history_deep_shapes() {
         for (lo, hi) in [(0u32, 280u32), (150, 450), (300, 600), (450, 750), (600, 900), (900, 1200), (1200, 1500), (100, 1400)] {
